@@ -42,15 +42,15 @@ type Check struct {
 	Rule        string
 	Assumptions []string
 
-	mu       sync.Mutex
-	evals    int64
-	distinct map[string]struct{}
-	samples  []interface{}
-	counters map[string]int64
-	viols    []Violation
-	inconcl  []string
-	extra    map[string]interface{}
-	MinEvals int64 // fewer evaluations than this => inconclusive
+	mu        sync.Mutex
+	evals     int64
+	distinct  map[string]struct{}
+	samples   []interface{}
+	counters  map[string]int64
+	viols     []Violation
+	inconcl   []string
+	extra     map[string]interface{}
+	MinEvals  int64 // fewer evaluations than this => inconclusive
 	distinctN int64 // distinct cases counted by a child process
 }
 
